@@ -525,87 +525,106 @@ pub fn mtoom(args: &Args) {
     let mut failures = 0u64;
     let caps: Vec<usize> = if thorough { (4..=12).collect() } else { vec![4, 5, 7] };
     for &cap in &caps {
-        for variant in 0..(if thorough { 6 } else { 3 }) {
-            let n = 2u32;
-            let mref = oxidd::mtbdd::new_manager(1 << 10, cap, [1usize, 16][variant % 2], 1);
-            let mut s: MvSession<MT> = MvSession::with_manager(&mut out, mref, 16, n, "oom");
-            let vars: Vec<usize> = (0..n).filter_map(|v| mt_var(&mut s, v)).collect();
-            if vars.len() != n as usize {
+        // `free`: terminal slots left after the set-up (0: exactly full; 1: an operation that needs two
+        // new terminals gets the first and fails at the second)
+        for free in 0..3usize {
+            if cap < 4 + free {
                 continue;
             }
-            // ballast: cap - 2 distinct constants below inner nodes only
-            let k = cap - 2;
-            let base = 100 + 10 * rng.below(50) as i64;
-            let vals: Vec<I64> = (0..4).map(|i| I64::Num(base + (i % k) as i64)).collect();
-            let Some(ballast) = mt_build(&mut s, &vals, &vars, n as usize) else { continue };
-            // (a second ballast function for the remaining constants, if k > 4)
-            let mut ballast2 = None;
-            if k > 4 {
-                let vals2: Vec<I64> = (0..4).map(|i| I64::Num(base + 4 + (i % (k - 4)) as i64)).collect();
-                ballast2 = mt_build(&mut s, &vals2, &vars, n as usize);
-            }
-            s.gc();
-            // operations that need 1..2 new terminals
-            let fresh = I64::Num(base + 50 + variant as i64);
-            let mut failed_ops: Vec<(&str, usize, usize)> = Vec::new();
-            cases += 1;
-            let c = mt_const(&mut s, fresh);
-            if c.is_none() {
-                failures += 1;
-            }
-            let two = mt_const(&mut s, I64::Num(2));
-            for (op, a, b) in [("add", vars[0], ballast), ("mul", ballast, ballast), ("sub", vars[1], ballast)] {
-                if s.dead {
-                    break;
+            for variant in 0..(if thorough { 4 } else { 2 }) {
+                let n = 2u32;
+                let mref = oxidd::mtbdd::new_manager(1 << 10, cap, [1usize, 16][variant % 2], 1);
+                let mut s: MvSession<MT> = MvSession::with_manager(&mut out, mref, 16, n, "oom");
+                let vars: Vec<usize> = (0..n).filter_map(|v| mt_var(&mut s, v)).collect();
+                if vars.len() != n as usize {
+                    continue;
+                }
+                // ballast: cap - 2 - free distinct constants below inner nodes only
+                let k = cap - 2 - free;
+                let base = 100 + 10 * rng.below(50) as i64;
+                let vals: Vec<I64> = (0..4).map(|i| I64::Num(base + (i % k.min(4)) as i64)).collect();
+                let Some(ballast) = mt_build(&mut s, &vals, &vars, n as usize) else { continue };
+                let mut ballast2 = None;
+                if k > 4 {
+                    let vals2: Vec<I64> = (0..4).map(|i| I64::Num(base + 4 + (i % (k - 4)) as i64)).collect();
+                    ballast2 = mt_build(&mut s, &vals2, &vars, n as usize);
+                }
+                s.gc();
+                // (a) operations whose results only need terminals that exist already: they must succeed
+                // however full the terminal store is
+                for (op, a, b) in [("mul", vars[0], vars[1]), ("min", ballast, vars[0]), ("max", vars[0], vars[1]),
+                                   ("min", ballast, ballast)] {
+                    if s.dead {
+                        break;
+                    }
+                    cases += 1;
+                    let mut sc = Vec::new();
+                    if let Ok((va, vb)) = catch(|| (mt_values(s.get(a), n), mt_values(s.get(b), n))) {
+                        for (x, y) in va.iter().zip(vb.iter()) {
+                            if let Some(z) = scalar(op, x, y) {
+                                sc.push(json!([i64_json(x), i64_json(y), i64_json(&z)]));
+                            }
+                        }
+                    }
+                    let r = catch(|| mt_bin(op, s.get(a), s.get(b)));
+                    if let Some(h) = s.log(op, &[a, b], json!({"sc": sc, "must_ok": true}), r) {
+                        s.drop_h(h);
+                    }
+                }
+                // (b) operations that need 1..2 new terminals: they fail (free = 0), or get the first new
+                // terminal and fail at the second (free = 1), or succeed
+                let fresh = I64::Num(base + 50 + variant as i64);
+                for (op, a, b) in [("add", vars[0], ballast), ("sub", vars[1], ballast), ("mul", ballast, ballast)] {
+                    if s.dead {
+                        break;
+                    }
+                    cases += 1;
+                    match mt_arith(&mut s, op, a, b) {
+                        Some(h) => s.drop_h(h),
+                        None => failures += 1,
+                    }
+                    // what a failed operation acquired must be released: exact collection
+                    s.gc();
                 }
                 cases += 1;
-                match mt_arith(&mut s, op, a, b) {
-                    Some(h) => s.drop_h(h),
-                    None => {
-                        failures += 1;
-                        failed_ops.push((op, a, b));
-                    }
+                match mt_const(&mut s, fresh) {
+                    Some(c) => s.drop_h(c),
+                    None => failures += 1,
                 }
-            }
-            if let Some(t) = two {
-                s.drop_h(t);
-            }
-            if let Some(c) = c {
-                s.drop_h(c);
-            }
-            if s.dead {
-                continue;
-            }
-            // every handle is intact after the failures
-            for a in s.live() {
-                let f = s.get(a).clone();
-                let (e, g, _) = f.graph();
-                let vt = Value::Array(catch(|| f.values(n)).unwrap_or_else(|p| vec![json!({"panic": p})]));
-                s.out.emit(json!({"ev":"mcheck","a":a,"e":e,"g":g,"vt":vt,"nc":f.node_count()}));
-            }
-            // free the terminals: drop the ballast, ONE collection, then retry with operands that
-            // need at most as many new terminals as were freed: x + c, x * c for a fresh constant
-            s.drop_h(ballast);
-            if let Some(b2) = ballast2 {
-                s.drop_h(b2);
-            }
-            s.gc();
-            let r = catch(|| s.mref.with_manager_shared(|m| MT::constant(m, fresh)));
-            let c2 = s.log("constant", &[], json!({"c": i64_json(&fresh), "must_ok": true}), r);
-            if let Some(c2) = c2 {
-                // x0 + c: terminals c and c + 1 (k >= 2 were freed, one is taken by c)
-                let r = catch(|| mt_bin("add", s.get(vars[0]), s.get(c2)));
-                let mut sc = Vec::new();
-                for (x, y) in [(I64::Num(0), fresh), (I64::Num(1), fresh)] {
-                    if let Some(z) = scalar("add", &x, &y) {
-                        sc.push(json!([i64_json(&x), i64_json(&y), i64_json(&z)]));
-                    }
+                if s.dead {
+                    continue;
                 }
-                s.log("add", &[vars[0], c2], json!({"sc": sc, "must_ok": true}), r);
-            }
-            if !s.dead {
-                s.obs();
-                s.finish();
+                // every handle is intact after the failures
+                for a in s.live() {
+                    let f = s.get(a).clone();
+                    let (e, g, _) = f.graph();
+                    let vt = Value::Array(catch(|| f.values(n)).unwrap_or_else(|p| vec![json!({"panic": p})]));
+                    s.out.emit(json!({"ev":"mcheck","a":a,"e":e,"g":g,"vt":vt,"nc":f.node_count()}));
+                }
+                // free the terminals: drop the ballast, ONE collection, then operations that need at most
+                // as many new terminals as were freed
+                s.drop_h(ballast);
+                if let Some(b2) = ballast2 {
+                    s.drop_h(b2);
+                }
+                s.gc();
+                let r = catch(|| s.mref.with_manager_shared(|m| MT::constant(m, fresh)));
+                let c2 = s.log("constant", &[], json!({"c": i64_json(&fresh), "must_ok": true}), r);
+                if let Some(c2) = c2 {
+                    // x0 + c needs one more terminal (c + 1); k + free >= 2 are available, one is taken by c
+                    let r = catch(|| mt_bin("add", s.get(vars[0]), s.get(c2)));
+                    let mut sc = Vec::new();
+                    for (x, y) in [(I64::Num(0), fresh), (I64::Num(1), fresh)] {
+                        if let Some(z) = scalar("add", &x, &y) {
+                            sc.push(json!([i64_json(&x), i64_json(&y), i64_json(&z)]));
+                        }
+                    }
+                    s.log("add", &[vars[0], c2], json!({"sc": sc, "must_ok": true}), r);
+                }
+                if !s.dead {
+                    s.obs();
+                    s.finish();
+                }
             }
         }
     }
